@@ -420,3 +420,83 @@ pub fn finish_plan(r: &mut Rng, cmds: Vec<Cmd>) -> Plan {
     p.writes = gen_writes(r, true);
     p
 }
+
+/// Insert one operation on a statement id that is not open at that point (never prepared,
+/// rejected at PREPARE time, or closed earlier): EXECUTE or SEND_LONG_DATA (also with an empty
+/// chunk). The model ends the conversation there; whatever follows must never be served.
+pub fn insert_dead_op(r: &mut Rng, cmds: &mut Vec<Cmd>) {
+    let limit = cmds
+        .iter()
+        .position(|c| matches!(c.kind, CmdKind::Quit))
+        .unwrap_or(cmds.len());
+    let pos = r.usize_below(limit + 1);
+    let mut live: Vec<u32> = Vec::new();
+    let mut seen: Vec<u32> = Vec::new();
+    for c in &cmds[..pos] {
+        match (&c.kind, &c.act) {
+            (CmdKind::Prepare(_), Act::Prepare(PrepAct::Reply { id, .. })) => {
+                if !live.contains(id) {
+                    live.push(*id);
+                }
+                if !seen.contains(id) {
+                    seen.push(*id);
+                }
+            }
+            (CmdKind::Close(id), _) => {
+                live.retain(|x| x != id);
+                if !seen.contains(id) {
+                    seen.push(*id);
+                }
+            }
+            _ => {}
+        }
+    }
+    let dead: Vec<u32> = seen.into_iter().filter(|x| !live.contains(x)).collect();
+    let mut id = if !dead.is_empty() && r.coin() {
+        *r.pick(&dead)
+    } else {
+        0x7700_0000 | r.below(1 << 16) as u32
+    };
+    while live.contains(&id) {
+        id = id.wrapping_add(0x0101_0101);
+    }
+    let cmd = if r.coin() {
+        let block = if r.coin() {
+            ParamBlock {
+                bind: None,
+                values: vec![],
+                raw: None,
+                stale_types: None,
+            }
+        } else {
+            ParamBlock {
+                bind: Some(vec![(0x08, 0)]),
+                values: vec![PVal::Int(7)],
+                raw: None,
+                stale_types: None,
+            }
+        };
+        Cmd {
+            seq: 0,
+            kind: CmdKind::Execute {
+                stmt: id,
+                flags: 0,
+                iters: 1,
+                block,
+            },
+            act: Act::Program(simple_ok_program()),
+        }
+    } else {
+        let n = if r.coin() { 0 } else { size_tiny(r) };
+        Cmd {
+            seq: 0,
+            kind: CmdKind::LongData {
+                stmt: id,
+                param: r.below(3) as u16,
+                data: blob_bytes(r, n),
+            },
+            act: Act::None,
+        }
+    };
+    cmds.insert(pos, cmd);
+}
